@@ -417,6 +417,75 @@ theorem composite_unpack_ok_returns (s : CompSpec) (subs : List (Tag × Field)) 
   · simp only [composite_Unpack_slices]
     exact sliceOf_eq' data offset dataLen _ _ (by omega) (by omega)
 
+/-! ### the packers: which length is announced, which length the padder is asked for -/
+
+/-- `defaultPacker.Pack`: the padder (when there is one) is asked for the declared length, and the
+prefix announces the length of the value AFTER padding (`len(value)` once `value` was re-assigned) -/
+theorem default_pack_translated (s : PrimSpec) (hp : s.packer = .default) (value : Bytes) :
+    ∃ padTo L : Int,
+      (s.pad ≠ .nil → one (firstRet (default_Pack_args_spec_Pad_Pad s.len value.length (s.pad.pad value s.len).length (decide (s.pad ≠ .nil)))) = some padTo ∧ padTo = s.len) ∧
+      (match firstRet (default_Pack_args_spec_Pref_EncodeLength s.len value.length (s.pad.pad value s.len).length (decide (s.pad ≠ .nil))) with
+        | some [m, l] => m = s.len ∧ l = L
+        | _ => False) ∧
+      (s.pad = .nil → (s.pad.pad value s.len) = value) ∧
+      PrimSpec.packBytes s value =
+        match Enc.encode s.enc (s.pad.pad value s.len) with
+        | .ok encoded =>
+          match s.pref.encodeLength s.len L.toNat with
+          | .ok pre => .ok (pre ++ encoded)
+          | .err => .err
+          | .panic => .panic
+        | .err => .err
+        | .panic => .panic := by
+  refine ⟨s.len, ((s.pad.pad value s.len).length : Int), ?_, ?_, ?_, ?_⟩
+  · intro h
+    simp [default_Pack_args_spec_Pad_Pad, firstRet, one, h]
+  · by_cases h : s.pad = .nil
+    · have hv : (s.pad.pad value s.len) = value := by rw [h]; rfl
+      simp [default_Pack_args_spec_Pref_EncodeLength, firstRet, h]
+      rfl
+    · simp [default_Pack_args_spec_Pref_EncodeLength, firstRet, h]
+  · intro h; rw [h]; rfl
+  · have : (((s.pad.pad value s.len).length : Int)).toNat = (s.pad.pad value s.len).length := by omega
+    simp only [PrimSpec.packBytes, hp, this]
+    rfl
+
+/-- `Track2Packer.Pack`: only an odd-length value is padded, by one character, and the prefix
+announces the length of the ORIGINAL value -/
+theorem track2_pack_translated (s : PrimSpec) (hp : s.packer = .track2) (value : Bytes) :
+    ∃ L : Int,
+      (match firstRet (track2_Pack_args_spec_Pref_EncodeLength s.len value.length 0 (decide (s.pad ≠ .nil))) with
+        | some [m, l] => m = s.len ∧ l = L
+        | _ => False) ∧
+      PrimSpec.packBytes s value =
+        match Enc.encode s.enc
+            (match firstRet (track2_Pack_args_spec_Pad_Pad s.len value.length 0 (decide (s.pad ≠ .nil))) with
+              | some [n] => s.pad.pad value n.toNat
+              | _ => value) with
+        | .ok encoded =>
+          match s.pref.encodeLength s.len L.toNat with
+          | .ok pre => .ok (pre ++ encoded)
+          | .err => .err
+          | .panic => .panic
+        | .err => .err
+        | .panic => .panic := by
+  refine ⟨(value.length : Int), ?_, ?_⟩
+  · simp [track2_Pack_args_spec_Pref_EncodeLength, firstRet]
+  · have h0 : ((value.length : Int)).toNat = value.length := by omega
+    simp only [PrimSpec.packBytes, hp, h0]
+    by_cases h1 : s.pad ≠ .nil <;> by_cases h2 : value.length % 2 ≠ 0
+    · have h2' : ((value.length : Int) % 2 ≠ 0) := by omega
+      have h3 : ((value.length : Int) + 1).toNat = value.length + 1 := by omega
+      simp [track2_Pack_args_spec_Pad_Pad, firstRet, h1, h2, h2', h3]
+      rfl
+    · have h2' : ¬ ((value.length : Int) % 2 ≠ 0) := by omega
+      simp [track2_Pack_args_spec_Pad_Pad, firstRet, h1, h2, h2']
+      rfl
+    · simp [track2_Pack_args_spec_Pad_Pad, firstRet, h1, h2]
+      rfl
+    · simp [track2_Pack_args_spec_Pad_Pad, firstRet, h1, h2]
+      rfl
+
 /-! ### the running offset of `Message.unpack` -/
 
 /-- an assignment `(keep, delta)` applied to the old value -/
